@@ -283,7 +283,6 @@ example : (⟨none, none, .custom 3, .none⟩ : Style).mode = none := by decide
 theorem builtin_spacing_zero : ∀ r ∈ fontTable, FontDecoOK r := fontTable_deco_ok
 
 -- [V] the atlas bitmap content itself (which bits are on in which cell of the 292 raw files) is a parameter of the theorems; the correspondence feeds the real bits read with `font.image.pixel()`: carried by correspondence + oracle only
--- [V] `Text::draw` of a single-line, left-aligned text equals `draw_string` (multi-line / alignment is C15): carried by correspondence + oracle only
 -- [V] ranges of a mapping string that cross the surrogate gap (none in the 14 built-in strings; `range_is_interval` excludes them): carried by correspondence + oracle only
 -- [V] `as u32` / `as i32` truncation of glyph indices and cell coordinates beyond 2^31 and i32 overflow of the running x position (theorems assume `TextInRange`): carried by correspondence + oracle only
 
